@@ -17,7 +17,8 @@ Statement-by-statement correspondence
 * `to_incremental(...)` when the input was incremental → `Triangle.toIncremental`
 
 The loops are unrolled with a fuel that bounds the number of iterations for a positive step (every step moves
-the date by at least one day): `aggFuel`. Resolutions with a non-positive quantity (Python: endless loop or
+the date by at least one day): `aggFuel`. Running out of fuel is an error of the model (`Err.other`), never a
+result, so every theorem about an `.ok` result speaks about loops that ended by their own condition. Resolutions with a non-positive quantity (Python: endless loop or
 immediate exit) and the empty input triangle (`sum([])` is the int 0) are outside the model.
 -/
 import Bermuda.Model.Summarize
@@ -28,32 +29,36 @@ namespace Bermuda
 /-- enough iterations to walk between two dates with a step of at least one day -/
 def aggFuel (a b : Date) : Nat := (a.ordinal - b.ordinal).natAbs + 2
 
-/-- `while resolution_delta(cur, res) < bound: cur = resolution_delta(cur, res)` -/
-def walkUp (q : Int) (u : ResUnit) (bound : Date) : Nat → Date → Date
-  | 0, cur => cur
+/-- `while resolution_delta(cur, res) < bound: cur = resolution_delta(cur, res)`; `none` = the fuel ran out
+(cannot happen for a positive step, see `aggFuel`; reported as an error, never as a result) -/
+def walkUp (q : Int) (u : ResUnit) (bound : Date) : Nat → Date → Option Date
+  | 0, _ => none
   | n + 1, cur =>
     let nx := resolutionDelta cur q u
-    if nx < bound then walkUp q u bound n nx else cur
+    if nx < bound then walkUp q u bound n nx else some cur
 
 /-- `while cur >= bound: cur = resolution_delta(cur, res, negative=True)` -/
-def walkDown (q : Int) (u : ResUnit) (bound : Date) : Nat → Date → Date
-  | 0, cur => cur
+def walkDown (q : Int) (u : ResUnit) (bound : Date) : Nat → Date → Option Date
+  | 0, _ => none
   | n + 1, cur =>
-    if bound ≤ cur then walkDown q u bound n (resolutionDelta cur q u true) else cur
+    if bound ≤ cur then walkDown q u bound n (resolutionDelta cur q u true) else some cur
 
 /-- both loops: the grid point `origin + k·res` used as the last one before `bound` -/
-def anchorBefore (q : Int) (u : ResUnit) (origin bound : Date) : Date :=
-  let a := walkUp q u bound (aggFuel origin bound) origin
-  walkDown q u bound (aggFuel a bound) a
+def anchorBefore (q : Int) (u : ResUnit) (origin bound : Date) : Option Date :=
+  match walkUp q u bound (aggFuel origin bound) origin with
+  | none => none
+  | some a => walkDown q u bound (aggFuel a bound) a
 
 /-- `while cur <= last: valid.append(cur); cur = resolution_delta(cur, res)` -/
-def gridFrom (q : Int) (u : ResUnit) (last : Date) : Nat → Date → List Date
-  | 0, _ => []
-  | n + 1, cur => if cur ≤ last then cur :: gridFrom q u last n (resolutionDelta cur q u) else []
+def gridFrom (q : Int) (u : ResUnit) (last : Date) : Nat → Date → Option (List Date)
+  | 0, _ => none
+  | n + 1, cur =>
+    if cur ≤ last then (gridFrom q u last n (resolutionDelta cur q u)).map (cur :: ·) else some []
 
-def validEvals (q : Int) (u : ResUnit) (origin first last : Date) : List Date :=
-  let a := anchorBefore q u origin first
-  gridFrom q u last (aggFuel a last) (resolutionDelta a q u)
+def validEvals (q : Int) (u : ResUnit) (origin first last : Date) : Option (List Date) :=
+  match anchorBefore q u origin first with
+  | none => none
+  | some a => gridFrom q u last (aggFuel a last) (resolutionDelta a q u)
 
 def minDate : List Date → Option Date
   | [] => none
@@ -74,8 +79,9 @@ def aggregateEval (t : List Cell) (res : Option (Int × String)) (origin : Date)
     | .ok (q, u) =>
       match minDate (t.map (·.ev)), maxDate (t.map (·.ev)) with
       | some first, some last =>
-        let valid := validEvals q u origin first last
-        Triangle.ofCells (t.filter fun c => valid.contains c.ev)
+        match validEvals q u origin first last with
+        | none => .error .other
+        | some valid => Triangle.ofCells (t.filter fun c => valid.contains c.ev)
       | _, _ => .error .indexError
 
 /-- tuple order of `cell.coordinates` = `(period_start, period_end, evaluation_date)` -/
@@ -86,17 +92,18 @@ def coordCmp : Cell → Cell → Ordering :=
 def assignWindows (q : Int) (u : ResUnit) : Date → List Cell → Except Err (List Cell)
   | _, [] => .ok []
   | init, c :: rest =>
-    let init' := walkUp q u c.ps (aggFuel init c.ps) init
-    let curStart := init'.succ
-    let curEnd := resolutionDelta init' q u
-    if curEnd < c.pe then .error .triangleError
-    else
-      match Cell.mk? { kind := .cell, ps := curStart, pe := curEnd, ev := c.ev, values := c.values, md := c.md } with
-      | .error e => .error e
-      | .ok nc =>
-        match assignWindows q u init' rest with
+    match walkUp q u c.ps (aggFuel init c.ps) init with
+    | none => .error .other
+    | some init' =>
+      if resolutionDelta init' q u < c.pe then .error .triangleError
+      else
+        match Cell.mk? { kind := .cell, ps := init'.succ, pe := resolutionDelta init' q u, ev := c.ev,
+                         values := c.values, md := c.md } with
         | .error e => .error e
-        | .ok ncs => .ok (nc :: ncs)
+        | .ok nc =>
+          match assignWindows q u init' rest with
+          | .error e => .error e
+          | .ok ncs => .ok (nc :: ncs)
 
 /-- one aggregated cell from a pile of re-labelled cells -/
 def aggCell (tr : Transc) (prem : Bool) (g : (Date × Date × Date) × List Cell) : Except Err Cell :=
@@ -121,13 +128,15 @@ def aggregatePeriod (tr : Transc) (t : List Cell) (res : Option (Int × String))
       match cells with
       | [] => .error .indexError
       | c0 :: _ =>
-        let init := anchorBefore q u origin c0.ps
-        match assignWindows q u init cells with
-        | .error e => .error e
-        | .ok relabelled =>
-          match smMapE (aggCell tr prem) (groupBy (fun c : Cell => (c.ps, c.pe, c.ev)) relabelled) with
+        match anchorBefore q u origin c0.ps with
+        | none => .error .other
+        | some init =>
+          match assignWindows q u init cells with
           | .error e => .error e
-          | .ok newCells => Triangle.ofCells newCells
+          | .ok relabelled =>
+            match smMapE (aggCell tr prem) (groupBy (fun c : Cell => (c.ps, c.pe, c.ev)) relabelled) with
+            | .error e => .error e
+            | .ok newCells => Triangle.ofCells newCells
 
 structure AggArgs where
   periodRes : Option (Int × String) := none
